@@ -41,7 +41,12 @@ def plan(tier, seed):
                         cases.append({"mod": "LinSolve", "cls": cls, "storage": st, "rhs": rhs, "solver": override, "r": r})
         for cls, st, sol in (("gen", "dense", "SolverDenseQR"), ("cgen", "dense", "SolverDenseLU"), ("spd", "csc", "CG"),
                              ("hpd", "csc", "CG"), ("spd", "dense", "SolverDenseLDL"), ("sym", "csc", "SolverSparseLU"),
-                             ("sym", "dense", "flag:symmetric"), ("herm", "dense", "flag:hermitian"), ("spd", "csc", "nolda")):
+                             ("sym", "dense", "flag:symmetric"), ("herm", "dense", "flag:hermitian"), ("spd", "csc", "nolda"),
+                             # flags given truthfully for every class they are true for (complex symmetric is not Hermitian)
+                             ("csym", "dense", "flag:symmetric"), ("csym", "csc", "flag:symmetric"), ("spd", "dense", "flag:symmetric"),
+                             ("hpd", "dense", "flag:hermitian"), ("spd", "csc", "flag:hermitian"),
+                             # saddle-point systems [[K, B^T], [B, eps I]] with a tiny regularisation (symmetric indefinite)
+                             ("saddle", "csc", "auto"), ("saddle", "csr", "SolverSparseLU"), ("saddle", "dense", "auto")):
             for rhs in ("v", "blk"):
                 cases.append({"mod": "LinSolve", "cls": cls, "storage": st, "rhs": rhs, "solver": sol, "r": r})
         for cls in REALC + CPLXC:
@@ -65,6 +70,12 @@ def _matrix(rng, cls, tier):
         n = (int(rng.integers(1, 4)), int(rng.integers(1, 4)), int(rng.integers(1, 3)) if dim == 3 else 0)
         K, dom, bc = matgen.fe_matrix(rng, kind, dim, n)
         return K.toarray(), 1e4
+    if cls == "saddle":
+        n1, n2 = int(rng.integers(4, 12)), int(rng.integers(1, 4))
+        K = matgen.make(rng, "spd", n1, cond=10 ** rng.uniform(0.5, 2))
+        B = rng.standard_normal((n2, n1))
+        A = np.block([[K, B.T], [B, 10.0 ** rng.uniform(-12, -8) * np.eye(n2)]])
+        return A, float(np.linalg.cond(A))
     n = int(rng.integers(1, 14 if tier == "quick" else 30))
     cond = 10 ** rng.uniform(0, 4)
     return matgen.make(rng, cls, n, cond=cond, scale=10 ** rng.uniform(-2, 2)), cond
@@ -145,7 +156,7 @@ def run_linsolve(case, ctx, rng):
     # first evaluation with some dofs decoupled (rows/columns zero apart from the diagonal, as boundary conditions or void
     # elements produce); later evaluations of the same module instance couple them again (supports released)
     Afull = A
-    if n >= 3 and rng.random() < 0.4 and case["cls"] not in ("diag", "cdiag"):
+    if n >= 3 and rng.random() < 0.4 and case["cls"] not in ("diag", "cdiag", "saddle"):
         idx = rng.choice(n, size=int(rng.integers(1, n - 1)), replace=False)
         A = A.copy()
         dg = np.diag(A)[idx].copy()
